@@ -147,7 +147,8 @@ func (h *History) sent(cl *mqtt.Client, pk packets.Packet, b []byte) {
 		}
 	}
 	if c != nil {
-		cp := append([]byte{}, b...)
+		// (the byte slice handed to the hook is empty when the packet was written directly: identify by type and id)
+		cp := []byte(fmt.Sprintf("%d:%d", pk.FixedHeader.Type, pk.PacketID))
 		c.mu.Lock()
 		c.reported = append(c.reported, cp)
 		c.mu.Unlock()
@@ -198,7 +199,7 @@ func NewHistory(cfg Config) *History {
 		_ = h.Srv.AddHook(&scriptHook{s: s, r: h.rec}, nil)
 	}
 	switch cfg.Auth {
-	case "allow", "acl":
+	case "allow", "acl", "acl_only":
 		c := cfg
 		_ = h.Srv.AddHook(&aclHook{cfg: &c}, nil)
 	}
@@ -375,7 +376,7 @@ func (h *History) collect(e *Event) {
 		if len(rep) > 0 {
 			hs := make([]string, len(rep))
 			for i, r := range rep {
-				hs[i] = hex.EncodeToString(r)
+				hs[i] = string(r)
 			}
 			e.Sent[n] = hs
 		}
